@@ -165,7 +165,7 @@ namespace {
         when = date_t(CURRENT_DATE().year(), when.month(), when.day());
 
         if (when.month() > CURRENT_DATE().month())
-          when -= gregorian::years(1);
+          when = date_t(when.year() - 1, when.month(), when.day());
       }
     }
     return when;
